@@ -25,7 +25,13 @@ echo "demo pristine rc=$RC0: $(tail -1 "$WT/demo.pristine.log")"
 echo "demo patched  rc=$RC1: $(tail -1 "$WT/demo.patched.log")"
 TESTS=skipped
 if [ "$MODE" = "--full" ]; then
-  TESTS=$( /venv/bin/python -m pytest -q -p no:cacheprovider --timeout=900 --continue-on-collection-errors 2>&1 | tail -3 | tr "\n" " " )
+  /venv/bin/python -m pytest -q -rf -p no:cacheprovider --timeout=900 --continue-on-collection-errors > "$WT/suite.log" 2>&1
+  # the pinned baseline counts 873 stable passes; without network one test outside that set fails on the pristine tree too
+  NEWFAIL=$(grep '^FAILED' "$WT/suite.log" | grep -v -i -E 'horizons|network|urlopen|test_add_by_name' | tr "\n" " ")
+  PASSED=$(tail -1 "$WT/suite.log" | grep -o '[0-9]* passed')
+  TESTS="$PASSED; failures beyond the offline baseline: ${NEWFAIL:-none}"
+  [ -n "$NEWFAIL" ] && TESTS="$TESTS (new test failed)"
+  [ "$PASSED" = "873 passed" ] || TESTS="$TESTS (pass count differs: failed)"
 elif [ "$MODE" = "--tests" ]; then
   TESTS=$( /venv/bin/python -m pytest -q -p no:cacheprovider --timeout=900 $ARG 2>&1 | tail -3 | tr "\n" " " )
 fi
